@@ -166,6 +166,11 @@ def call(planet, finder, variant, jde):
     elif not isinstance(res, Epoch):
         raise Violation("%s returned %r, not an Epoch" % (site, res), site=site, kind="type")
     t = res.jde()
+    # the caller owns what it was given: recycle the returned object through its documented
+    # mutator, so that a result shared with a later caller (a cache handing out one mutable
+    # object) shows there
+    if isinstance(t, float):
+        res.set(2451545.0 if t != 2451545.0 else 2451546.0)
     if not (isinstance(t, float) and math.isfinite(t)) or (extra is not None and not math.isfinite(extra)):
         raise Violation("%s returned a non-finite result (%r, %r)" % (site, t, extra), site=site,
                         kind="non_finite")
@@ -273,6 +278,12 @@ def body_event(case):
     try:
         q, snapped = resolve_query(case, period)
         t, extra = call(planet, finder, variant, q)
+        t_again, extra_again = call(planet, finder, variant, q)
+        if abs(t_again - t) > 1e-6 or (extra is not None and abs(extra_again - extra) > 1e-9):
+            raise Violation("%s(Epoch(%r)) = JDE %.6f, and JDE %.6f when asked again with an equal "
+                            "epoch after the first result had been re-used by its receiver"
+                            % (name, q, t, t_again), site=site, kind="not_a_function_of_the_query",
+                            first=t, second=t_again)
         near_boundary = snapped
         if not snapped and finder in FORMULA_FINDERS:
             near_boundary = any(
@@ -360,6 +371,7 @@ def gap_window(planet, finder):
 def body_sweep(case):
     planet, finder, variant = case["planet"], case["finder"], case.get("variant", "")
     jde0, n = case["jde0"], case["n"]
+    step = case.get("step", STEP)          # in periods; 0.5 = two queries per event, no probes
     period = period_of(planet, finder)
     tol = tol_days(planet)
     site = "%s.%s" % (planet, finder)
@@ -379,13 +391,15 @@ def body_sweep(case):
 
     pts = []
     for i in range(n):
-        q = jde0 + i * STEP * period
+        q = jde0 + i * step * period
         if q > J_HI:
             break
         pts.append((q, ask(q)))
     nsteps = len(pts)
     probes = []
     for (q0, r0), (q1, r1) in zip(pts, pts[1:]):
+        if step > 0.25:
+            break
         if r0 is None or r1 is None or abs(r1 - r0) <= same:
             continue
         lo, hi, rlo, rhi = q0, q1, r0, r1
@@ -451,9 +465,10 @@ def body_sweep(case):
             data["exc"] = sorted(set(repr(e.exc) for _, e in excs))
             data["exc_types"] = sorted(set(type(e.exc).__name__ for _, e in excs))
             data["frames"] = sorted(set(f for _, e in excs for f in e.frames))
-        raise Violation("%s swept from %.4f in %d steps of period/20: %s" % (name, jde0, nsteps, "; ".join(parts)),
+        raise Violation("%s swept from %.4f in %d steps of %g period: %s" % (name, jde0, nsteps, step, "; ".join(parts)),
                         site=site, kind="+".join(sorted(comp)), **data)
-    labels = {name + " sweep": nsteps, "sweep_step": nsteps, "selection_boundary_probe": len(probes),
+    labels = {name + (" sweep" if step <= 0.25 else " every event of the era"): nsteps,
+              "sweep_step": nsteps, "selection_boundary_probe": len(probes),
               "distinct_event_pairs": ngaps, era_label(jde0) + " sweep": nsteps}
     return {"n": nsteps + len(probes), "nt": nsteps + len(probes), "labels": labels,
             "show": {"steps": nsteps, "boundary_probes": len(probes), "event_pairs": ngaps,
@@ -670,6 +685,20 @@ def tasks(tier, seed):
     for (p, f, v) in SITES:
         if f in FORMULA_FINDERS:
             out.append(Task("t_tiles", planet=p, finder=f, seed=seed, every=4 if tier == "quick" else 1))
+    # calendar seams at one-day steps for the closed-formula finders (they pick the event from
+    # epoch.year()): 400 days either side of the reform, of New Year 1583, 1 BC/AD 1, 1600, 1700,
+    # 2000 and of the era ends
+    for i in range(4):
+        out.append(Task("t_seams", sites=[(p, f) for (p, f, v) in SITES if f in FORMULA_FINDERS][i::4]))
+    # the orbital finders (1-3 ms per query): every event of the era, two queries per period with a
+    # seed-derived phase and no boundary probes, in segments of 250 events (quick: every 4th
+    # segment for Mercury, rotating with the seed)
+    for (p, f, v) in SITES:
+        if f in VARIANT_FINDERS:
+            nshard = 4 if p == "Mercury" else (2 if p in ("Venus", "Earth", "Mars") else 1)
+            for sh in range(nshard):
+                out.append(Task("t_all_events", planet=p, finder=f, variant=v, seed=seed, shard=sh,
+                                of=nshard, every=4 if (tier == "quick" and p == "Mercury") else 1))
     # out-of-range refusals
     formula_sites = [(p, f) for (p, f, v) in SITES if f in FORMULA_FINDERS]
     for i in range(4):
@@ -701,6 +730,37 @@ def t_tiles(rec, planet, finder, seed, every):
             # overlap by one period so that no boundary falls between two segments
             rec.case("sweep", {"planet": planet, "finder": finder, "jde0": max(J_LO, j - period),
                                "n": nseg + 20})
+        k += 1
+        j += span
+
+
+SEAM_DATES = [(1582, 10, 15), (1583, 1, 1), (0, 1, 1), (1, 1, 1), (-1999, 12, 31), (1600, 3, 1),
+              (1700, 3, 1), (2000, 1, 1), (3998, 12, 31), (-1000, 1, 1), (4, 3, 1)]
+
+
+def t_seams(rec, sites):
+    for (p, f) in sites:
+        period = period_of(p, f)
+        for ymd in SEAM_DATES:
+            j0 = _clip(cal.jdn(*ymd) - 0.5 - 400.0)
+            rec.case("sweep", {"planet": p, "finder": f, "jde0": j0, "n": 801,
+                               "step": 1.0 / period})
+
+
+def t_all_events(rec, planet, finder, variant, seed, shard, of, every):
+    period = period_of(planet, finder)
+    nseg = 500
+    span = nseg * 0.5 * period
+    phase = (sub_seed(seed, "C13", "all", planet, finder, variant) % 10007) / 10007.0 * period
+    k = 0
+    j = J_LO + phase
+    while j < J_HI:
+        if k % of == shard and ((k // of) % every) == (seed % every):
+            c = {"planet": planet, "finder": finder, "jde0": max(J_LO, j - period), "n": nseg + 4,
+                 "step": 0.5}
+            if variant:
+                c["variant"] = variant
+            rec.case("sweep", c)
         k += 1
         j += span
 
